@@ -182,6 +182,8 @@ def check(run):
         noisy, exact = rounding_noise_symmetric(rng, nb if t is None else t.shape[0], diagonal=(n % 2 == 0))
         npos = np.array([[0.5, -0.25, 1.0], [-1.0, 0.75, 0.25]])
         one_case(run, specs, noisy, np.array([[0.1, 0.2, 0.3], [1.5, -1.0, 0.5]]), npos, np.array([1.0, 6.0]), 0.0, t, "gamma symmetric up to rounding")
+    from checks import c09 as _c09
+    _c09.positional_arguments_case(run, rng, only=('electrostatic',))
     representation_cases(run)
     # the witnesses of the repaired defects
     s = ShellSpec(0, [0, 0, 0], [1.0], [1.0])
@@ -190,6 +192,11 @@ def check(run):
 
 
 def replay(run, rep):
+    if rep.get("case") == "positional":
+        from checks import c09 as _c09
+        n0_ = len(run.violations)
+        _c09.positional_arguments_case(run, run.rng, only=('electrostatic',))
+        return len(run.violations) == n0_
     n0 = len(run.violations)
     specs = specs_from(rep)
     t = None if rep.get("transform") is None else np.array(rep["transform"])
